@@ -181,6 +181,21 @@ check("C15", "exploration",
       SIM + "multi-process pipeline simulation with single-point alterations on link, files and root",
       "DESIGN.md 4/C15", "admin-world")
 
+check("C17", "exploration",
+      "One authorisation life cycle per run: `signapp message`, then 0..6 signing steps by `signapp key` "
+      "(authorisers, strangers, repeats), `signapp eth` (Ethereum-app model on the simulated link), `signapp "
+      "manual` (valid and malformed DER), a save-load-save cycle, then `adm_ledger authorize_signer` as a tool "
+      "process against a UI model that recomputes the digest from the firmware's construction and verifies "
+      "each signature against n authorisers with the n/2+1 threshold and the strictly-newer iteration rule. "
+      "Oracle: SIGVER carries hash | BE16(iteration), signatures are sent in file order up to the first "
+      "success, exit status 0 exactly when the device authorised, tool-made signatures verify under their "
+      "key for the reference digest, malformed iterations / DER / keys are refused and leave the file alone.",
+      "The first sentence of the property (text and digest for every hash and iteration) is a pure function: "
+      "covered only through interoperability with the firmware-derived device model at sampled and boundary "
+      "iterations.",
+      SIM + "tool pipeline + 2-party simulation against a verifying UI model",
+      "DESIGN.md 4/C17", "admin-world")
+
 check("C18", "fault_enumeration",
       "Every combination of platform {Ledger, SGX} x command {onboard, unlock, changepin, pubkeys} x device "
       "state {mode, onboarded, echo} x operator script {PIN kind, argv or typed after invalid attempts, "
@@ -195,6 +210,19 @@ check("C18", "fault_enumeration",
       "policy-compliant PINs; device models from firmware source.",
       SIM + "tool-process simulation with scripted operator, entropy and device-state enumeration",
       "DESIGN.md 4/C18", "admin-world")
+
+check("C19", "exploration",
+      "`signapp hash` and `signonetime` run as tool processes over the simulated file system and entropy "
+      "stream on generated Intel-HEX images (1..8 areas across 64 KiB zones, gaps, out-of-order areas, record "
+      "lengths 1..255, two writings per image). Oracle: reported hash = SHA-256 over the harness's own area "
+      "list in address order for every writing; every .sig verifies (independent ecdsa) under the written "
+      "public key for that hash; exactly the public-key file and one .sig per image are written; the run "
+      "consumes entropy and two runs under different entropy streams yield different keys; the private "
+      "scalar (recomputed from the recorded entropy) and raw entropy appear in no written byte or stdout.",
+      "'Whatever the record sizes' is input sampling (writings drawn, not enumerated); secrecy of the scalar "
+      "is checked when the tool's key matches the ecdsa package's derivation from the recorded entropy.",
+      SIM + "tool-process simulation with entropy and file-system seams (freshness, secrecy, binding)",
+      "DESIGN.md 4/C19", "admin-world")
 
 for _p in ["C02", "C03", "C06", "C07", "C08", "C09", "C10", "C11", "C12", "C15", "C17", "C18",
            "C19"]:
